@@ -93,6 +93,9 @@ func (m *SubackMessage) Decode(src []byte) (int, error) {
 		return total, err
 	}
 
+	// The packet ends where the fixed header says it ends.
+	src = src[:total+int(m.remlen)]
+
 	if len(src) < total+2 {
 		return total, fmt.Errorf("suback/Decode: Insufficient buffer size. Expecting %d, got %d", total+2, len(src))
 	}
